@@ -1,0 +1,218 @@
+//go:build verif
+
+// Contracts for the govc verifier (see /verif/DESIGN.md). Comment-only file.
+package strz
+
+//@ spec lowerOf(c int) int = ite((c/32)%2 == 0, c+32, c)
+//@ spec upperOf(c int) int = ite(c < 64, c, ite(c < 128, c - ((c/32)%2)*32, ite(c < 192, c, c - 64 - ((c/32)%2)*32)))
+//@ spec dval(c int) int = ite(48 <= c && c <= 57, c-48, ite(97 <= lowerOf(c) && lowerOf(c) <= 122, lowerOf(c)-87, 255))
+//@ recspec hval(s bytes, base int, i int) int = ite(i <= 0, 0, hval(s, base, i-1)*base + dval(s[i-1]))
+
+//@ spec noBackslash(s bytes_any) bool = forall k in 0..len(s): s[k] != 92
+//@ spec octEsc(s bytes_any, p int) bool = s[p] == 92 && 48 <= s[p+1] && s[p+1] <= 51 && 48 <= s[p+2] && s[p+2] <= 55 && 48 <= s[p+3] && s[p+3] <= 55
+//@ spec octVal(s bytes_any, p int) int = (s[p+1]-48)*64 + (s[p+2]-48)*8 + (s[p+3]-48)
+//@ spec hexDigit(c int) bool = (48 <= c && c <= 57) || (65 <= c && c <= 70) || (97 <= c && c <= 102)
+//@ spec hexEsc(s bytes_any, p int) bool = s[p] == 92 && s[p+1] == 120 && hexDigit(s[p+2]) && hexDigit(s[p+3])
+//@ spec hexVal(s bytes_any, p int) int = dval(s[p+2])*16 + dval(s[p+3])
+
+//@ global zeroPadding:
+//@   invariant len(zeroPadding) == 8
+//@   invariant forall k in 0..8: zeroPadding[k] == 48
+
+//@ func lower
+//@   inline
+
+//@ func upper
+//@   ensures result == upperOf(c)
+
+//@ func toUpper
+//@   modifies dst[0:len(dst)]
+//@   ensures forall j in 0..len(dst): dst[j] == upperOf(old(dst[j]))
+//@   loop 1:
+//@     invariant forall j in 0..i: dst[j] == upperOf(old(dst[j]))
+//@     invariant forall j: (j < 0 || j >= i) ==> dst[j] == old(dst[j])
+//@     decreases len(dst) - i
+
+//@ func appendUint
+//@   requires base == 8 || base == 16
+//@   requires 1 <= len(dst) && len(dst) <= 8
+//@   requires i < powb(base, len(dst))
+//@   modifies dst[0:len(dst)]
+//@   ensures forall j in 0..len(dst): dst[j] == digitChar(digitAt(i, base, len(dst)-1-j))
+//@   at after-call1:
+//@     assert len(b) <= len(dst)
+//@     assert forall k in len(b)..len(dst): digitAt(i, base, k) == 0
+//@   at after-call4:
+//@     assert forall j in 0..len(b): dst[x+j] == digitChar(digitAt(i, base, len(b)-1-j))
+//@   at after-call5:
+//@     assert forall j in x..len(dst): dst[j] == digitChar(digitAt(i, base, len(dst)-1-j))
+//@     assert forall j in 0..x: dst[j] == 48
+
+//@ func parseUint
+//@   requires base == 8 || base == 16
+//@   requires 1 <= bitSize && bitSize <= 32
+//@   requires len(s) <= 8
+//@   ensures 0 <= result2 && result2 <= len(s)
+//@   ensures result3 ==> result2 == len(s) && result1 == hval(s, base, len(s)) && result1 < (1 << bitSize)
+//@   ensures result3 ==> forall k in 0..len(s): dval(s[k]) < base
+//@   ensures !result3 ==> result2 < len(s) && forall k in 0..result2: dval(s[k]) < base
+//@   ensures !result3 ==> dval(s[result2]) >= base || hval(s, base, result2+1) >= (1 << bitSize)
+//@   loop 1:
+//@     invariant 0 <= i && i <= len(s)
+//@     invariant n == hval(s, base, i) && n <= maxVal
+//@     invariant forall k in 0..i: dval(s[k]) < base
+//@     decreases len(s) - i
+
+//@ func OctalFormat
+//@   ensures len(result) == 4*len(s) && fresh(result)
+//@   ensures forall k in 0..len(s): result[4*k] == 92 && result[4*k+1] == 48 + s[k]/64 && result[4*k+2] == 48 + (s[k]/8)%8 && result[4*k+3] == 48 + s[k]%8
+//@   loop 1:
+//@     invariant 0 <= i && i <= len(s) && j == 4*i
+//@     invariant forall k in 0..i: b[4*k] == 92 && b[4*k+1] == 48 + s[k]/64 && b[4*k+2] == 48 + (s[k]/8)%8 && b[4*k+3] == 48 + s[k]%8
+//@     decreases len(s) - i
+
+//@ func HexFormat
+//@   ensures len(result) == 4*len(s) && fresh(result)
+//@   ensures forall k in 0..len(s): result[4*k] == 92 && result[4*k+1] == 120 && result[4*k+2] == upperOf(digitChar(s[k]/16)) && result[4*k+3] == upperOf(digitChar(s[k]%16))
+//@   loop 1:
+//@     invariant 0 <= i && i <= len(s) && j == 4*i
+//@     invariant forall k in 0..i: b[4*k] == 92 && b[4*k+1] == 120 && b[4*k+2] == upperOf(digitChar(s[k]/16)) && b[4*k+3] == upperOf(digitChar(s[k]%16))
+//@     decreases len(s) - i
+
+//@ func OctalParse
+//@   requires len(dst) >= len(src)
+//@   ghost nb = !sameArray(dst, src) && noBackslash(src)
+//@   ghost rt = !sameArray(dst, src) && len(src)%4 == 0 && forall k in 0..len(src)/4: octEsc(src, 4*k)
+//@   ensures 0 <= result && result <= len(src)
+//@   ensures (!sameArray(dst, src) && noBackslash(old(src))) ==> result == len(src) && forall k in 0..len(src): dst[k] == old(src[k])
+//@   ensures (!sameArray(dst, src) && len(src)%4 == 0 && forall k in 0..len(src)/4: octEsc(old(src), 4*k)) ==> result == len(src)/4 && forall k in 0..len(src)/4: dst[k] == octVal(old(src), 4*k)
+//@   modifies dst[0:len(src)]
+//@   loop 1:
+//@     invariant 0 <= e && e <= f && f <= i && i <= len(src)
+//@     invariant unchangedOutside(dst, 0, e)
+//@     invariant !sameArray(dst, src) ==> forall k in 0..len(src): src[k] == old(src[k])
+//@     invariant nb ==> e == 0 && f == 0
+//@     invariant rt ==> i == 4*e && f == i && forall k in 0..e: dst[k] == octVal(old(src), 4*k)
+//@     decreases len(src) - i
+
+//@ func UnsafeString
+//@   trusted
+//@   ensures sameSeq(result, b)
+
+//@ func UnsafeStrOrBytesToBytes
+//@   trusted
+//@   ensures len(result) == len(s) && cap(result) >= len(s)
+//@   ensures forall k in 0..len(s): result[k] == s[k]
+//@   ensures isString(s) ==> fresh(result)
+//@   ensures !isString(s) ==> sameSlice(result, s)
+
+//@ func UnsafeStrOrBytesToString
+//@   trusted
+//@   ensures sameSeq(result, s)
+
+//@ func HexParse
+//@   requires len(dst) >= len(src)
+//@   ghost nb = !sameArray(dst, src) && noBackslash(src)
+//@   ghost rt = !sameArray(dst, src) && len(src)%4 == 0 && forall k in 0..len(src)/4: hexEsc(src, 4*k)
+//@   ensures 0 <= result && result <= len(src)
+//@   ensures (!sameArray(dst, src) && noBackslash(old(src))) ==> result == len(src) && forall k in 0..len(src): dst[k] == old(src[k])
+//@   ensures (!sameArray(dst, src) && len(src)%4 == 0 && forall k in 0..len(src)/4: hexEsc(old(src), 4*k)) ==> result == len(src)/4 && forall k in 0..len(src)/4: dst[k] == hexVal(old(src), 4*k)
+//@   modifies dst[0:len(src)]
+//@   loop 1:
+//@     invariant 0 <= e && e <= f && f <= i && i <= len(src)
+//@     invariant unchangedOutside(dst, 0, e)
+//@     invariant !sameArray(dst, src) ==> forall k in 0..len(src): src[k] == old(src[k])
+//@     invariant nb ==> e == 0 && f == 0
+//@     invariant rt ==> i == 4*e && f == i && forall k in 0..e: dst[k] == hexVal(old(src), 4*k)
+//@     decreases len(src) - i
+
+//@ func UnicodeParse
+//@   requires len(dst) >= len(src)
+//@   ghost nb = !sameArray(dst, src) && noBackslash(src)
+//@   ensures 0 <= result && result <= len(src)
+//@   ensures (!sameArray(dst, src) && noBackslash(old(src))) ==> result == len(src) && forall k in 0..len(src): dst[k] == old(src[k])
+//@   modifies dst[0:len(src)]
+//@   loop 1:
+//@     invariant 0 <= e && e <= f && f <= i && i <= len(src)
+//@     invariant unchangedOutside(dst, 0, e)
+//@     invariant !sameArray(dst, src) ==> forall k in 0..len(src): src[k] == old(src[k])
+//@     invariant nb ==> e == 0 && f == 0
+//@     decreases len(src) - i
+
+//@ func Utf16Parse
+//@   requires len(dst) >= len(src)
+//@   ghost nb = !sameArray(dst, src) && noBackslash(src)
+//@   ensures 0 <= result && result <= len(src)
+//@   ensures (!sameArray(dst, src) && noBackslash(old(src))) ==> result == len(src) && forall k in 0..len(src): dst[k] == old(src[k])
+//@   modifies dst[0:len(src)]
+//@   loop 1:
+//@     invariant 0 <= e && e <= f && f <= i && i <= len(src)
+//@     invariant unchangedOutside(dst, 0, e)
+//@     invariant !sameArray(dst, src) ==> forall k in 0..len(src): src[k] == old(src[k])
+//@     invariant nb ==> e == 0 && f == 0
+//@     decreases len(src) - i
+
+//@ spec isUpperHex(c int) bool = (48 <= c && c <= 57) || (65 <= c && c <= 70)
+//@ spec escShape(c int, r int, letter int) bool = ite(r == 0, c == 92, ite(r == 1, c == letter, isUpperHex(c)))
+
+//@ func UnicodeFormat
+//@   uses u8countNonNeg
+//@   ensures fresh(result) && len(result) == 10*runeCountFrom(s, 0)
+//@   ensures forall p in 0..len(result): escShape(result[p], p%10, 85)
+//@   loop 1:
+//@     invariant 0 <= i && i <= len(src) && 0 <= j
+//@     invariant j == 10*(runeCountFrom(src, 0) - runeCountFrom(src, i))
+//@     invariant len(b) == 10*runeCountFrom(src, 0)
+//@     invariant forall p in 0..j: escShape(b[p], p%10, 85)
+//@     decreases len(src) - i
+
+//@ func Utf16Format
+//@   nomerge
+//@   ensures len(result)%6 == 0
+//@   ensures forall p in 0..len(result): escShape(result[p], p%6, 117)
+//@   loop 1:
+//@     invariant 0 <= i && i <= len(src) && 0 <= j && j == len(b) && j%6 == 0
+//@     invariant fresh(b) && oldUntouched(b)
+//@     invariant forall p in 0..j: escShape(b[p], p%6, 117)
+//@     decreases len(src) - i
+//@   at after-call17:
+//@     assert forall p in 0..j: escShape(b[p], p%6, 117)
+//@   at after-call18:
+//@     assert forall p in 0..len(b): escShape(b[p], p%6, 117) || p >= j+2
+
+//@ func verifOctalRoundTrip
+//@   ensures result2 == len(s) && forall k in 0..len(s): result1[k] == s[k]
+//@   at after-call1:
+//@     assert len(b) == 4*len(s) && forall k in 0..len(s): octEsc(b, 4*k) && octVal(b, 4*k) == s[k]
+//@   at after-call4:
+//@     assert n == len(s)
+//@     assert forall k in 0..len(s): d[k] == octVal(b, 4*k)
+
+//@ func verifHexRoundTrip
+//@   ensures result2 == len(s) && forall k in 0..len(s): result1[k] == s[k]
+//@   at after-call1:
+//@     assert len(b) == 4*len(s) && forall k in 0..len(s): hexEsc(b, 4*k) && hexVal(b, 4*k) == s[k]
+//@   at after-call4:
+//@     assert n == len(s)
+//@     assert forall k in 0..len(s): d[k] == hexVal(b, 4*k)
+
+//@ func OctalFormatToString
+//@   ensures len(result) == 4*len(s)
+//@ func HexFormatToString
+//@   ensures len(result) == 4*len(s)
+//@ func UnicodeFormatToString
+//@   ensures len(result) == 10*runeCountFrom(s, 0)
+//@ func Utf16FormatToString
+//@   ensures len(result)%6 == 0
+//@ func OctalParseToString
+//@   ensures len(result) <= len(s)
+//@   ensures noBackslash(s) ==> len(result) == len(s) && forall k in 0..len(s): result[k] == s[k]
+//@ func HexParseToString
+//@   ensures len(result) <= len(s)
+//@   ensures noBackslash(s) ==> len(result) == len(s) && forall k in 0..len(s): result[k] == s[k]
+//@ func UnicodeParseToString
+//@   ensures len(result) <= len(s)
+//@   ensures noBackslash(s) ==> len(result) == len(s) && forall k in 0..len(s): result[k] == s[k]
+//@ func Utf16ParseToString
+//@   ensures len(result) <= len(s)
+//@   ensures noBackslash(s) ==> len(result) == len(s) && forall k in 0..len(s): result[k] == s[k]
